@@ -1,0 +1,64 @@
+// MIT License
+//
+// Copyright (c) 2022-2026 GoAkt Team
+//
+// Permission is hereby granted, free of charge, to any person obtaining a copy
+// of this software and associated documentation files (the "Software"), to deal
+// in the Software without restriction, including without limitation the rights
+// to use, copy, modify, merge, publish, distribute, sublicense, and/or sell
+// copies of the Software, and to permit persons to whom the Software is
+// furnished to do so, subject to the following conditions:
+//
+// The above copyright notice and this permission notice shall be included in all
+// copies or substantial portions of the Software.
+//
+// THE SOFTWARE IS PROVIDED "AS IS", WITHOUT WARRANTY OF ANY KIND, EXPRESS OR
+// IMPLIED, INCLUDING BUT NOT LIMITED TO THE WARRANTIES OF MERCHANTABILITY,
+// FITNESS FOR A PARTICULAR PURPOSE AND NONINFRINGEMENT. IN NO EVENT SHALL THE
+// AUTHORS OR COPYRIGHT HOLDERS BE LIABLE FOR ANY CLAIM, DAMAGES OR OTHER
+// LIABILITY, WHETHER IN AN ACTION OF CONTRACT, TORT OR OTHERWISE, ARISING FROM,
+// OUT OF OR IN CONNECTION WITH THE SOFTWARE OR THE USE OR OTHER DEALINGS IN THE
+// SOFTWARE.
+
+//go:build verif
+
+package remoteclient
+
+// VerifCoalescer is a read-only handle on the per-destination send coalescer
+// of a client. Verification harness only.
+type VerifCoalescer struct{ c *coalescer }
+
+// VerifCoalescerFor returns the coalescer the client uses for host:port,
+// creating it (and its writer goroutine) exactly as the first RemoteTell to
+// that destination would. ok is false when cl is not the package's client or
+// coalescing is disabled. Verification harness only.
+func VerifCoalescerFor(cl Client, host string, port int) (v VerifCoalescer, ok bool) {
+	r, isClient := cl.(*client)
+	if !isClient {
+		return VerifCoalescer{}, false
+	}
+	c := r.getCoalescer(host, port)
+	return VerifCoalescer{c: c}, c != nil
+}
+
+// Queued returns the number of messages buffered in the submit channel.
+func (v VerifCoalescer) Queued() int { return len(v.c.in) }
+
+// Capacity returns the capacity of the submit channel.
+func (v VerifCoalescer) Capacity() int { return cap(v.c.in) }
+
+// MaxBatch returns the effective batch bound.
+func (v VerifCoalescer) MaxBatch() int { return v.c.maxBatch }
+
+// Closed reports whether close has been signalled.
+func (v VerifCoalescer) Closed() bool {
+	select {
+	case <-v.c.done:
+		return true
+	default:
+		return false
+	}
+}
+
+// Obj returns the pointer the coalescer passes to verifhook.At.
+func (v VerifCoalescer) Obj() any { return v.c }
